@@ -185,10 +185,10 @@ func (r *recorder) take() []delivery {
 }
 
 type clusterCfg struct {
-	Nodes        int    `json:"nodes"`
-	PtPerNode    int    `json:"pt_per_node"`
-	NumOfShards  int    `json:"num_of_shards,omitempty"` // ts-meta config num-of-shards (used by SHARDS AUTO)
-	CreateDB     string `json:"create_db"`               // CREATE DATABASE statement text
+	Nodes       int    `json:"nodes"`
+	PtPerNode   int    `json:"pt_per_node"`
+	NumOfShards int    `json:"num_of_shards,omitempty"` // ts-meta config num-of-shards (used by SHARDS AUTO)
+	CreateDB    string `json:"create_db"`               // CREATE DATABASE statement text
 }
 
 func newCluster(cfg clusterCfg) (*cluster, error) {
